@@ -130,7 +130,9 @@ def enumerate_cases(tier, scope):
         # a listener checkpoints the process from inside its notifications; the process may end with an exception that
         # cannot be serialised, so that the checkpoint of the terminal state fails (in the listener)
         unsavable = {'steps': [gen.S([['yield'], ['out', 'x', 1]], ['wait', 1, None, None], True), gen.S([], ['raise', {'__lock__': 1}])]}
-        for prog in (unsavable, gen.CATALOGUE['wait1'], gen.CATALOGUE['failing'], gen.CATALOGUE['selfkill'], gen.CATALOGUE['chain']):
+        # ... or with an output that cannot be serialised (then it is the outcome future that cannot be saved)
+        unsavable_out = {'steps': [gen.S([['yield'], ['out', 'x', {'__lock__': 1}]], ['wait', 1, None, None], True), gen.S([['yield']], ['value', 3], True)]}
+        for prog in (unsavable, unsavable_out, gen.CATALOGUE['wait1'], gen.CATALOGUE['failing'], gen.CATALOGUE['selfkill'], gen.CATALOGUE['chain']):
             for on in ('on_process_finished', 'on_process_killed', 'on_process_excepted', 'on_process_running', 'on_process_waiting', 'on_process_paused'):
                 for occ in (1, 2):
                     for sched in ([], [['tick', 1], ['kill', 'k']], [['tick', 2], ['pause', 'p']], [['tick', 1], ['fail', 'f']], [['tick', 2], ['resume', 1]]):
